@@ -95,6 +95,11 @@ T('C12',
   'Bounded exhaustive model checking on the real temperature-profile classes: every returned profile must have shape (N,), be finite, positive, inside the range of its controls and constant for equal controls; Guillot must match the published closed form (reference with own series/continued-fraction E2); parameter sets the statement calls unphysical, or for which the closed form is not a positive real, must raise an InvalidModelException.',
   'windows 0..100 %, temperatures 300..2500 K, N<=200; range slack 1e-9*max (cumulative-sum rounding); equal node pressures treated as not ordered; a slope exactly at the limit may go either way; Guillot tolerance rtol 1e-9 + forward rounding bound; numpy/scipy trusted; small-scope hypothesis; three Guillot signatures are listed known findings')
 
+T('C16',
+  'bounded exhaustive enumeration (E1 product space + E2 explicit-state BFS over set/reload histories) of the real HDF5 writer, binners and model loader against a TauREx-free reference',
+  'Model checking over inputs, configurations and histories: every leaf type (floats, ints, bools, numpy scalars, strings incl. empty / 64 / 65 chars / non-ascii, 0-2-d arrays, empty arrays, lists, tuples, lists of strings, nested dicts) x key x nesting depth <=3 and all ordered sibling pairs through store_dictionary and read back with h5py; every binner x OutputSize x model type x grid for the self-consistency of stored spectra (wavelength grids, binned wavelength widths converted at the bin centre, binned = binner(native), tau presence by size); <=2 (thorough <=3 + full core product) deviations over model type x 10 temperature x 3 pressure x 7 gas sets x 4 fill x 7 contribution letters with write->load->write->load (same classes, parameter values, spectrum; second-generation file is a fixed point); and all set:<fitting parameter> / reload histories to depth 2 (3 for one configuration) where a reloaded model must stay bisimilar to the never-reloaded one.',
+  "small scope: <=20 layers, 7 wavenumbers, in-memory opacities; h5py/numpy trusted; keys without '/'; explicit refusals by the writer are outside the quantifier; components needing unshipped data not enumerated; file-based profiles reloaded while their files still exist; two signatures are listed known findings")
+
 
 def main():
     props = [json.loads(l) for l in open(os.path.join(VERIF, 'properties.jsonl'))]
